@@ -6,7 +6,14 @@
               layout, mark and sweep on the `pre` dump and must give the same slot ranges, marked
               set and surviving set; marked objects must keep their words
    (K-outer)  generated allocation-heavy programs under forced collection schedules (CHIBI_VERIF_GC),
-              asan variant (swept chunks poisoned): output must equal the unforced run."""
+              asan variant (swept chunks poisoned): output must equal the unforced run.
+              Dense streams (a collection before every / every 2nd allocation of the program itself): harness/c02_prims.scm,
+              c02_arith.scm (arithmetic opcodes on operands that exist only on the VM stack), corpus/C02/dense-*.scm, c02_libs.scm,
+              c02_libs2.scm (compiled libraries, schedule started after the imports), c02_threads.scm (green threads),
+              c02_errors.scm (primitive-error paths: every sexp_raise of vm.c inside guard / handlers / dynamic-wind / parameterize).
+   (G, static) gen/c02_vmtop.py -> coq/Gen/C02_VmTop.v: the opcode switch of sexp_apply as an item table; checker + soundness proof in
+              coq/C02/VmTop.v (no lost and no stale VM-stack root at any allocating call).
+              gen/c02_gcvars.py: sexp_gc_var discipline of C locals from the clang AST (search aid + triaged allow-list)."""
 import os, subprocess, hashlib, re
 from vlib import build as B
 
@@ -565,7 +572,7 @@ def outer_dense(ctx, da, scheds, extra_progs):
     emb = B.cc_embed(da, HARNESS, os.path.join(da, "embed_c02"))
     work = os.path.join(B.SCRATCH, "tmp_c02_work")
     os.makedirs(work, exist_ok=True)
-    progs = [os.path.join(HERE, "..", "harness", "c02_prims.scm")]
+    progs = [os.path.join(HERE, "..", "harness", "c02_prims.scm"), os.path.join(HERE, "..", "harness", "c02_arith.scm")]
     if os.path.isdir(CORPUS):
         progs += [os.path.join(CORPUS, f) for f in sorted(os.listdir(CORPUS)) if f.startswith("dense") and f.endswith(".scm")]
     for k, text in enumerate(extra_progs):
@@ -585,7 +592,7 @@ def outer_dense(ctx, da, scheds, extra_progs):
         if rc0 != 0:
             ctx.broken("outer:baseline", "program %s fails without any forced collection: rc=%s %s" % (src, rc0, err0[-300:]))
             continue
-        for s in scheds:
+        for s in (scheds if (ctx.thorough or not src.endswith("c02_arith.scm")) else [x for x in scheds if x == "every:2" or x.startswith("seed")]):
             rc, out, err = go(s)
             if rc == "TIMEOUT":
                 ctx.note("dense run %s under %s timed out (inconclusive)" % (os.path.basename(src), s))
@@ -844,7 +851,7 @@ def run(ctx):
         ctx.cov["vm_segments_with_stack_stores"] = sum(1 for sg in vt["segments"] if sg.get("stores"))
         for sg in badsegs:
             kinds = sorted(set(b[1] for b in sg["bad"]))
-            cls = "lost-root" if ("lost" in kinds or "lost-store" in kinds) else ("stale-root" if "stale" in kinds else ("exit" if "exit" in kinds else "other"))
+            cls = "lost-root" if ("lost" in kinds or "lost-store" in kinds or "lost-arg" in kinds) else ("stale-root" if "stale" in kinds else ("exit" if "exit" in kinds else "other"))
             ctx.broken("vmtop:%s:%s" % (cls, "/".join(sg["names"])),
                        "opcode %s of vm.c: %s" % ("/".join(sg["names"]), "; ".join(sorted(set(c02_vmtop.why_text(b) for b in sg["bad"])))[:900]))
         ctx.assume("vm.c translator / checker: at the start of an opcode every slot below the local top and below the published top has been written "
@@ -915,7 +922,7 @@ def run(ctx):
         lscheds = [("every:%d" % ctx.rng.choice([53, 61, 67]), False)]
     nl = outer_libs(ctx, da, lscheds)
     if ctx.thorough:
-        l2 = [("every:%d" % ctx.rng.choice([13, 17, 19]), False), ("seed:%d:11" % ctx.rng.randrange(1, 1000), True)]
+        l2 = [("every:%d" % ctx.rng.choice([29, 31, 37]), False), ("seed:%d:41" % ctx.rng.randrange(1, 1000), True)]
     else:
         l2 = [("every:%d" % ctx.rng.choice([307, 311, 331]), False)]
     nl += outer_libs(ctx, da, l2, srcname="c02_libs2.scm", tag="libs2")
@@ -924,12 +931,12 @@ def run(ctx):
     if ctx.thorough:
         tscheds = [("every:1", True, "seed:%d:25" % rs()), ("every:2", False, "seed:%d:9" % rs()), ("every:3", True, None), ("seed:%d:3" % rs(), False, "seed:%d:60" % rs())]
     else:
-        tscheds = [("every:%d" % ctx.rng.choice([17, 19, 23]), False, "seed:%d:%d" % (rs(), ctx.rng.choice([7, 30, 120]))), ("seed:%d:29" % rs(), True, None)]
+        tscheds = [("every:%d" % ctx.rng.choice([17, 19, 23]), False, "seed:%d:%d" % (rs(), ctx.rng.choice([7, 30, 120])))]
     nt = outer_libs(ctx, da, tscheds, srcname="c02_threads.scm", tag="threads", more_env={"CHIBI_VERIF_SCHED_CLOCK": "1000"})
     t6 = time.time()
     ctx.note("green-thread programs under dense forced collections: %d runs %.0fs" % (nt, t6 - t5))
     if ctx.thorough:
-        ne = outer_errors(ctx, da, None, [("every:1", 0, True), ("every:2", 0, False), ("every:2", 1, False), ("every:3", 1, True), ("seed:%d:3" % rs(), 0, False)])
+        ne = outer_errors(ctx, da, None, [("every:1", 0, False), ("every:2", 1, True), ("seed:%d:3" % rs(), 0, False)])
     else:
         ne = outer_errors(ctx, da, 8, [("every:1", 0, False)])
     t7 = time.time()
